@@ -38,6 +38,8 @@ SCRIPTS = {
     "edit-between": [["new", "fwd", "all", "graph"], ["edit", "charge"], ["new", "fwd", "all", "graph"], ["edit", "restore"],
                      ["new", "fwd", "all", "graph"], ["new", "bwd", "all", "graph"]],
 }
+SCRIPTS["substrate-forms"] = [["new", "fwd", "all", "sub-graph"], ["new", "bwd", "all", "sub-syngraph"], ["new", "fwd", "comp", "sub-syngraph"],
+                              ["new", "bwd", "bt", "sub-graph"]]
 # the one script that exercises SynRule objects handed over for BACKWARD application
 SCRIPTS["rule-backward"] = [["new", "fwd", "all", "rule"], ["new", "bwd", "all", "rule"], ["new", "fwd", "all", "rule"]]
 
@@ -96,6 +98,13 @@ def make_reactor(sub, tpl_form, tplg, rsmi, core, inv, strategy, mode, rule=None
         return SynReactor.from_smiles(sub, tplg, invert=inv, strategy=strategy, **cfg)
     if tpl_form == "positional":      # dataclass field order: substrate, template, invert, canonicaliser, explicit_h, implicit_temp, strategy
         return SynReactor(sub, tplg, inv, None, cfg.get("explicit_h", True), cfg.get("implicit_temp", False), strategy)
+    if tpl_form in ("sub-graph", "sub-syngraph"):       # the substrate handed over as networkx graph / SynGraph object
+        from synkit.IO.chem_converter import smiles_to_graph
+        from synkit.Graph.syn_graph import SynGraph
+        from synkit.Graph.canon_graph import GraphCanonicaliser
+        g = sub if not isinstance(sub, str) else smiles_to_graph(sub, use_index_as_atom_map=False, drop_non_aam=False)
+        obj = g if tpl_form == "sub-graph" else SynGraph(g, GraphCanonicaliser())
+        return SynReactor(obj, tplg, invert=inv, strategy=strategy, **cfg)
     if tpl_form == "partial":
         return SynReactor(sub, tplg, invert=inv, strategy=strategy, partial=True, **cfg)
     if tpl_form == "prefilter":
